@@ -5,6 +5,7 @@ from dataclasses import dataclass, field
 from datetime import datetime
 
 from ..parsing.specials import Flag, ExtensionOptions
+from ..parsing.specials.flag import Recent
 
 __all__ = ['AppendMessage']
 
@@ -25,3 +26,10 @@ class AppendMessage:
     when: datetime | None = None
     flag_set: frozenset[Flag] = field(default_factory=frozenset)
     options: ExtensionOptions = field(default_factory=ExtensionOptions.empty)
+
+    def __post_init__(self) -> None:
+        # \Recent is a session flag assigned by the server, it can never be
+        # given to a message by a client
+        if Recent in self.flag_set:
+            object.__setattr__(self, 'flag_set',
+                               frozenset(self.flag_set) - {Recent})
